@@ -1,6 +1,8 @@
 """C16 - dumping is deterministic and stable (nondeterminism-source clauses)."""
 import sys
 
+from sa import crosslist as XL
+from sa import rules_r6b as R6B
 from sa import report, rules_repr as RR2, rules_state as RS, rules_opts as RO
 from sa import rules_extra as RX
 from sa import effects as EFF
@@ -29,6 +31,10 @@ def run(ctx, repo):
 
     ctx.call(EFF.r_global_readonly, repo)
     ctx.call(RX.r_no_memo, repo)
+    ctx.call(R6B.r_option_immutable, repo, ['emitter.Emitter', 'serializer.Serializer', 'representer.BaseRepresenter'])
+    ctx.call(R6B.r_mapping_store_only, repo)
+    XL.mapping_rules(ctx, repo)
+
 
 if __name__ == '__main__':
     sys.exit(report.main('C16', 'other', run))
